@@ -360,7 +360,11 @@ bool SessionManager::send(const PeerId& peer_id, std::span<const std::uint8_t> p
     }
 
     crypto::Key key{};
-    key.bytes = session->key;
+    {
+        // register_peer_key() replaces the key under sessions_mutex_ when it rotates.
+        std::scoped_lock lock(sessions_mutex_);
+        key.bytes = session->key;
+    }
 
     crypto::Nonce nonce{};
     {
@@ -813,7 +817,10 @@ void SessionManager::receive_loop(const PeerId& peer_id, std::shared_ptr<Session
         }
 
         crypto::Key key{};
-        key.bytes = session->key;
+        {
+            std::scoped_lock lock(sessions_mutex_);
+            key.bytes = session->key;
+        }
 
         crypto::Nonce nonce{};
         std::copy(nonce_buffer.begin(), nonce_buffer.end(), nonce.bytes.begin());
